@@ -16,7 +16,9 @@ CONSTANTS Clones, MaxVer, MaxOps, MaxFaults,
           RemoteMode,      \* TRUE: clones share a remote; FALSE: local-only (use one clone)
           FixInitReset,    \* candidate repair: on open, restore tracked files to HEAD before reading meta
           FixInitRemote,   \* candidate repair: on open in remote mode, reset to the remote branch
-          FixErrRollback   \* candidate repair: a failed command inside add_version rolls the working tree back
+          FixErrRollback,  \* candidate repair: a failed command inside add_version rolls the working tree back
+          FixOwnPush       \* repair b5f755c (G7): after a "failed" push, a version that is the remote's
+                           \* latest one is reported as accepted, not as rejected
 
 Nil == 0
 Tree(v, m) == [vers |-> v, meta |-> m]
@@ -29,9 +31,10 @@ VARIABLES wt,        \* [c -> tree]   working tree files (version files + meta)
           mem,       \* [c -> latest id cached in memory]
           st,        \* [c -> record: pc, parent, new]
           base,      \* [c -> version the client (replica) of this clone is based on]
-          nextId, acked, served, nops, nfaults, bad
+          nextId, acked, served, nops, nfaults, bad,
+          lied       \* a call answered "rejected" although the version it added is on the chain
 
-vars == <<wt, idx, commits, remote, mem, st, base, nextId, acked, served, nops, nfaults, bad>>
+vars == <<wt, idx, commits, remote, mem, st, base, nextId, acked, served, nops, nfaults, bad, lied>>
 
 Idle == [pc |-> "idle", parent |-> 0, new |-> 0]
 
@@ -40,7 +43,7 @@ Init ==
   /\ commits = [c \in Clones |-> <<Empty>>] /\ remote = <<Empty>>
   /\ mem = [c \in Clones |-> Nil] /\ st = [c \in Clones |-> Idle]
   /\ base = [c \in Clones |-> Nil]
-  /\ nextId = 1 /\ acked = {} /\ served = {} /\ nops = [c \in Clones |-> 0] /\ nfaults = 0 /\ bad = FALSE
+  /\ nextId = 1 /\ acked = {} /\ served = {} /\ nops = [c \in Clones |-> 0] /\ nfaults = 0 /\ bad = FALSE /\ lied = FALSE
 
 Last(s) == s[Len(s)]
 Front(s) == SubSeq(s, 1, Len(s) - 1)
@@ -62,38 +65,38 @@ AVStart(c) ==
   /\ st[c].pc = "idle" /\ nops[c] < MaxOps /\ nextId <= MaxVer
   /\ nops' = [nops EXCEPT ![c] = @ + 1]
   /\ st' = [st EXCEPT ![c] = [pc |-> IF mem[c] # Nil /\ base[c] # mem[c] THEN "av_r1" ELSE "av_w1", parent |-> base[c], new |-> 0]]
-  /\ UNCHANGED <<wt, idx, commits, remote, mem, base, nextId, acked, served, nfaults, bad>>
+  /\ UNCHANGED <<wt, idx, commits, remote, mem, base, nextId, acked, served, nfaults, bad, lied>>
 AVr1(c) == /\ st[c].pc = "av_r1" /\ RTR1(c) /\ Go(c, "av_r2")
-           /\ UNCHANGED <<remote, mem, base, nextId, acked, served, nops, nfaults, bad>>
+           /\ UNCHANGED <<remote, mem, base, nextId, acked, served, nops, nfaults, bad, lied>>
 AVr2(c) == /\ st[c].pc = "av_r2" /\ RTR2(c) /\ Go(c, "av_r3")
-           /\ UNCHANGED <<idx, commits, remote, mem, base, nextId, acked, served, nops, nfaults, bad>>
+           /\ UNCHANGED <<idx, commits, remote, mem, base, nextId, acked, served, nops, nfaults, bad, lied>>
 AVr3(c) == /\ st[c].pc = "av_r3"
            /\ mem' = [mem EXCEPT ![c] = wt[c].meta]
            /\ IF st[c].parent # wt[c].meta THEN st' = [st EXCEPT ![c] = Idle]   \* ExpectedParentVersion
               ELSE Go(c, "av_w1")
-           /\ UNCHANGED <<wt, idx, commits, remote, base, nextId, acked, served, nops, nfaults, bad>>
+           /\ UNCHANGED <<wt, idx, commits, remote, base, nextId, acked, served, nops, nfaults, bad, lied>>
 AVw1(c) == /\ st[c].pc = "av_w1"
            /\ wt' = [wt EXCEPT ![c].vers = @ \cup {<<st[c].parent, nextId>>}]
            /\ st' = [st EXCEPT ![c].pc = "av_w2", ![c].new = nextId]
            /\ nextId' = nextId + 1
-           /\ UNCHANGED <<idx, commits, remote, mem, base, acked, served, nops, nfaults, bad>>
+           /\ UNCHANGED <<idx, commits, remote, mem, base, acked, served, nops, nfaults, bad, lied>>
 AVw2(c) == /\ st[c].pc = "av_w2"
            /\ mem' = [mem EXCEPT ![c] = st[c].new]
            /\ wt' = [wt EXCEPT ![c].meta = st[c].new]
            /\ Go(c, "av_a1")
-           /\ UNCHANGED <<idx, commits, remote, base, nextId, acked, served, nops, nfaults, bad>>
+           /\ UNCHANGED <<idx, commits, remote, base, nextId, acked, served, nops, nfaults, bad, lied>>
 AVa1(c) == /\ st[c].pc = "av_a1"
            /\ idx' = [idx EXCEPT ![c].vers = @ \cup {<<st[c].parent, st[c].new>>}]
            /\ Go(c, "av_a2")
-           /\ UNCHANGED <<wt, commits, remote, mem, base, nextId, acked, served, nops, nfaults, bad>>
+           /\ UNCHANGED <<wt, commits, remote, mem, base, nextId, acked, served, nops, nfaults, bad, lied>>
 AVa2(c) == /\ st[c].pc = "av_a2"
            /\ idx' = [idx EXCEPT ![c].meta = wt[c].meta]
            /\ Go(c, "av_c")
-           /\ UNCHANGED <<wt, commits, remote, mem, base, nextId, acked, served, nops, nfaults, bad>>
+           /\ UNCHANGED <<wt, commits, remote, mem, base, nextId, acked, served, nops, nfaults, bad, lied>>
 AVc(c) ==  /\ st[c].pc = "av_c"
            /\ commits' = [commits EXCEPT ![c] = Append(@, idx[c])]
            /\ Go(c, "av_p")
-           /\ UNCHANGED <<wt, idx, remote, mem, base, nextId, acked, served, nops, nfaults, bad>>
+           /\ UNCHANGED <<wt, idx, remote, mem, base, nextId, acked, served, nops, nfaults, bad, lied>>
 AVp(c) ==  /\ st[c].pc = "av_p"
            /\ IF ~RemoteMode \/ IsPrefix(remote, commits[c])
               THEN /\ remote' = IF RemoteMode THEN commits[c] ELSE remote
@@ -101,25 +104,44 @@ AVp(c) ==  /\ st[c].pc = "av_p"
                    /\ base' = [base EXCEPT ![c] = st[c].new]
                    /\ st' = [st EXCEPT ![c] = Idle]
               ELSE /\ Go(c, "av_x1") /\ UNCHANGED <<remote, acked, base>>
-           /\ UNCHANGED <<wt, idx, commits, mem, nextId, served, nops, nfaults, bad>>
+           /\ UNCHANGED <<wt, idx, commits, mem, nextId, served, nops, nfaults, bad, lied>>
+(* git push reports a failure although the remote took the push (reply lost): the code   *)
+(* treats every failing push as a rejection and goes on to undo its commit                *)
+AVpLost(c) ==
+  /\ st[c].pc = "av_p" /\ RemoteMode /\ IsPrefix(remote, commits[c]) /\ nfaults < MaxFaults
+  /\ nfaults' = nfaults + 1
+  /\ remote' = commits[c]
+  /\ Go(c, "av_x1")
+  /\ UNCHANGED <<wt, idx, commits, mem, base, nextId, acked, served, nops, bad, lied>>
 AVx1(c) == /\ st[c].pc = "av_x1"
            /\ commits' = [commits EXCEPT ![c] = Front(@)]
            /\ Go(c, "av_x2")
-           /\ UNCHANGED <<wt, idx, remote, mem, base, nextId, acked, served, nops, nfaults, bad>>
+           /\ UNCHANGED <<wt, idx, remote, mem, base, nextId, acked, served, nops, nfaults, bad, lied>>
 AVx2(c) == /\ st[c].pc = "av_x2" /\ RTR1(c) /\ Go(c, "av_x3")
-           /\ UNCHANGED <<remote, mem, base, nextId, acked, served, nops, nfaults, bad>>
+           /\ UNCHANGED <<remote, mem, base, nextId, acked, served, nops, nfaults, bad, lied>>
 AVx3(c) == /\ st[c].pc = "av_x3" /\ RTR2(c) /\ Go(c, "av_x4")
-           /\ UNCHANGED <<idx, commits, remote, mem, base, nextId, acked, served, nops, nfaults, bad>>
+           /\ UNCHANGED <<idx, commits, remote, mem, base, nextId, acked, served, nops, nfaults, bad, lied>>
 AVx4(c) == /\ st[c].pc = "av_x4"
            /\ mem' = [mem EXCEPT ![c] = wt[c].meta]
-           /\ st' = [st EXCEPT ![c] = Idle]      \* ExpectedParentVersion(mem)
-           /\ UNCHANGED <<wt, idx, commits, remote, base, nextId, acked, served, nops, nfaults, bad>>
+           /\ st' = [st EXCEPT ![c] = Idle]
+           /\ IF FixOwnPush /\ <<st[c].parent, st[c].new>> \in wt[c].vers
+              THEN \* the version this call added is part of the remote state taken over: Ok(new)
+                   \* (the first form of the repair compared with the remote's LATEST version
+                   \* only; TLC refuted it: another clone adds a version on top in between)
+                   /\ acked' = acked \cup {<<st[c].parent, st[c].new>>}
+                   /\ base' = [base EXCEPT ![c] = st[c].new]
+                   /\ UNCHANGED lied
+              ELSE \* ExpectedParentVersion(mem)
+                   /\ lied' = (lied \/ <<st[c].parent, st[c].new>> \in Last(remote).vers)
+                   /\ UNCHANGED <<acked, base>>
+           /\ UNCHANGED <<wt, idx, commits, remote, nextId, served, nops, nfaults, bad>>
 
 \* ---------------- get_child_version(parent = base[c]); a found version is adopted as the new base
 Serve(c, e) == /\ base' = [base EXCEPT ![c] = e[2]]
                /\ served' = served \cup {e}
                \* in remote mode a served version must be on the remote; in local mode it must be connected
                /\ bad' = (bad \/ (RemoteMode /\ e \notin Last(remote).vers))
+               /\ UNCHANGED lied
 GCStart(c) ==
   /\ st[c].pc = "idle" /\ nops[c] < MaxOps
   /\ nops' = [nops EXCEPT ![c] = @ + 1]
@@ -128,16 +150,16 @@ GCStart(c) ==
      THEN /\ \E e \in found : Serve(c, e)
           /\ UNCHANGED st
      ELSE /\ st' = [st EXCEPT ![c] = [pc |-> "gc_r1", parent |-> base[c], new |-> 0]]
-          /\ UNCHANGED <<base, served, bad>>
+          /\ UNCHANGED <<base, served, bad, lied>>
   /\ UNCHANGED <<wt, idx, commits, remote, mem, nextId, acked, nfaults>>
 GCr1(c) == /\ st[c].pc = "gc_r1" /\ RTR1(c) /\ Go(c, "gc_r2")
-           /\ UNCHANGED <<remote, mem, base, nextId, acked, served, nops, nfaults, bad>>
+           /\ UNCHANGED <<remote, mem, base, nextId, acked, served, nops, nfaults, bad, lied>>
 GCr2(c) == /\ st[c].pc = "gc_r2" /\ RTR2(c) /\ Go(c, "gc_r3")
-           /\ UNCHANGED <<idx, commits, remote, mem, base, nextId, acked, served, nops, nfaults, bad>>
+           /\ UNCHANGED <<idx, commits, remote, mem, base, nextId, acked, served, nops, nfaults, bad, lied>>
 GCr3(c) == /\ st[c].pc = "gc_r3"
            /\ mem' = [mem EXCEPT ![c] = wt[c].meta]
            /\ LET found == {e \in wt[c].vers : e[1] = st[c].parent} IN
-              IF found # {} THEN \E e \in found : Serve(c, e) ELSE UNCHANGED <<base, served, bad>>
+              IF found # {} THEN \E e \in found : Serve(c, e) ELSE UNCHANGED <<base, served, bad, lied>>
            /\ st' = [st EXCEPT ![c] = Idle]
            /\ UNCHANGED <<wt, idx, commits, remote, nextId, acked, nops, nfaults>>
 
@@ -164,7 +186,7 @@ Crash(c) ==
         /\ idx' = [idx EXCEPT ![c] = i1]
         /\ wt' = [wt EXCEPT ![c] = w2]
         /\ mem' = [mem EXCEPT ![c] = w2.meta]
-  /\ UNCHANGED <<remote, base, nextId, acked, served, nops, bad>>
+  /\ UNCHANGED <<remote, base, nextId, acked, served, nops, bad, lied>>
 \* a command fails: the call returns Err, the process (and its cached meta) lives on
 Fail(c) ==
   /\ nfaults < MaxFaults /\ st[c].pc \in {"av_a1", "av_a2", "av_c", "av_r1", "av_x2", "gc_r1"}
@@ -174,11 +196,11 @@ Fail(c) ==
      THEN LET h == Last(commits[c]) IN
           /\ idx' = [idx EXCEPT ![c] = h] /\ wt' = [wt EXCEPT ![c] = h] /\ mem' = [mem EXCEPT ![c] = h.meta]
      ELSE UNCHANGED <<idx, wt, mem>>
-  /\ UNCHANGED <<commits, remote, base, nextId, acked, served, nops, bad>>
+  /\ UNCHANGED <<commits, remote, base, nextId, acked, served, nops, bad, lied>>
 
 Next == \E c \in Clones :
   \/ AVStart(c) \/ AVr1(c) \/ AVr2(c) \/ AVr3(c) \/ AVw1(c) \/ AVw2(c) \/ AVa1(c) \/ AVa2(c)
-  \/ AVc(c) \/ AVp(c) \/ AVx1(c) \/ AVx2(c) \/ AVx3(c) \/ AVx4(c)
+  \/ AVc(c) \/ AVp(c) \/ AVpLost(c) \/ AVx1(c) \/ AVx2(c) \/ AVx3(c) \/ AVx4(c)
   \/ GCStart(c) \/ GCr1(c) \/ GCr2(c) \/ GCr3(c) \/ Crash(c) \/ Fail(c)
 
 -----------------------------------------------------------------------------
@@ -198,6 +220,8 @@ ChainWhole == \A c \in Clones : st[c].pc = "idle" => Connected(Auth(c).vers, Aut
 NoPhantom == \A c \in Clones : st[c].pc = "idle" => Connected(wt[c].vers, wt[c].meta, MaxVer + 1)
 OneChild == \A e1, e2 \in acked : e1[1] = e2[1] => e1 = e2
 NoUnpushedServed == ~bad
+\* "changes nothing on rejection" also when a reply is lost (G7)
+NoFalseRejection == ~lied
 \* everything a client was told is accepted, and everything it was served, stays in the authoritative chain
 Durable == \A c \in Clones : st[c].pc = "idle" => (acked \cup served) \subseteq Auth(c).vers \cup (IF RemoteMode THEN {} ELSE {})
 =============================================================================
